@@ -122,7 +122,7 @@ type yamlParseError struct {
 }
 
 func (err *yamlParseError) Error() string {
-	var index int
+	index := -1
 	var message string
 	var pe *yaml.ParserError
 	var te *yaml.TypeError
@@ -136,6 +136,10 @@ func (err *yamlParseError) Error() string {
 				break
 			}
 		}
+	}
+	if index < 0 { // the error carries no position
+		return fmt.Sprintf("invalid yaml: %s: %s",
+			err.fname, strings.TrimPrefix(err.err.Error(), "yaml: "))
 	}
 	offset := len(err.contents)
 	for i := range err.contents { // index counts characters, not bytes
